@@ -595,3 +595,42 @@ pub fn judge_context(tags: &[&str], rec: &mut spec::record::Recorder) {
         rec.class("calling-context|ordinary = second call = thread-local destructor", || format!("{:?}", tags));
     }
 }
+
+
+/// Cold-start probe shared by several monitors: `f` is applied to every input by twelve threads
+/// released together, as the first calls into the crate of this process, and once more later;
+/// the rendered outcomes must be the same (the later ones are judged by the ordinary workload).
+pub fn cold_start_equal(rec: &mut spec::record::Recorder, what: &str, inputs: &[Vec<u8>], f: &(dyn Fn(&[u8]) -> String + Sync)) {
+    let outs = spec::engine::race_start(12, |t| (0..inputs.len()).map(|k| f(&inputs[(k + 3 * t) % inputs.len()])).collect::<Vec<String>>());
+    for (t, list) in outs.iter().enumerate() {
+        for (k, o) in list.iter().enumerate() {
+            let x = &inputs[(k + 3 * t) % inputs.len()];
+            let later = f(x);
+            rec.events(2);
+            if *o != later {
+                rec.violation("cold-start-race", enc_case("any", x), "cold-start".into(), format!("cold start: thread {} of 12, among the first calls of the process, {} on {:?} gave {}; the same call later gives {}", t, what, spec::json::show(x, 40), &o[..o.len().min(200)], &later[..later.len().min(200)]));
+                return;
+            }
+        }
+    }
+    rec.class("cold-start|12 threads released together", || what.to_string());
+}
+
+/// A small fixed set of inputs for the cold-start probes: text lines, binary headers, sections.
+pub fn cold_inputs() -> Vec<Vec<u8>> {
+    let mut v: Vec<Vec<u8>> = vec![
+        b"PROXY TCP4 10.1.2.3 10.4.5.6 1024 443\r\nGET /".to_vec(),
+        b"PROXY TCP6 2001:db8::1 ::ffff:1.2.3.4 1 65535\r\n".to_vec(),
+        b"PROXY UNKNOWN anything at all\r\n".to_vec(),
+        b"PROXY TCP4 10.1.2.3 10.4.5".to_vec(),
+        b"proxy tcp4 1.2.3.4 5.6.7.8 1 2\r\n".to_vec(),
+    ];
+    for i in 0..12u64 {
+        let (vc, fp) = spec::v2::valid_ctl(i * 2 + 1);
+        let mut rng = spec::rng::Rng::new(i ^ 0xC01D);
+        let mut b = Vec::new();
+        spec::v2::valid_header_budget(&mut rng, &mut b, vc, fp, Some(30));
+        v.push(b);
+    }
+    v
+}
